@@ -247,6 +247,84 @@ func lenClass(l int) string {
 
 // ---- (b) sync rounds ----
 
+// c11Stall: the only server accepts the sync connection and stays silent. The report loop must go on (it launches
+// its rounds itself here: the last successful sync on record is seven hours old) and must try again later -
+// whatever happens to the round that is stuck.
+func c11Stall() *jobReport {
+	rep := &jobReport{Reasons: map[string]int{}}
+	s1 := mkScripted("S1", 1)
+	genesis := int64(glow.GenesisTime)
+	energy := fmt.Sprintf("timestamp,energy (mWh)\n%d,100\n", genesis+300*5)
+	w, hub, err := c11Client([]scriptedServer{s1}, nil, &energy)
+	if err != nil {
+		rep.fail("harness/setup", err.Error())
+		return rep
+	}
+	stall := make(chan struct{})
+	dials := 0
+	hub.TCP[s1.tcpAddr()] = func() (net.Conn, error) {
+		dials++
+		return &lazyConn{Stall: stall}, nil
+	}
+	// restart with an old stamp so that the loop wants to sync at its first opportunity
+	if err := w.Close(); err != nil {
+		rep.fail("harness/close", err.Error())
+		return rep
+	}
+	must(os.WriteFile(filepath.Join(w.Dir, client.LastSyncFile), []byte(fmt.Sprint(int64(nowUnix())-7*3600)), 0644))
+	if err := w.start(); err != nil {
+		rep.fail("client-restart-fails", err.Error())
+		return rep
+	}
+	sent := len(hub.Log)
+	for i := 0; i < 13; i++ {
+		if i == 6 {
+			w.setEnergy(energy + fmt.Sprintf("%d,200\n", genesis+300*6))
+		}
+		if err := w.tick(); err != nil {
+			rep.fail("send-loop-stuck-while-a-round-is-stalled", map[string]interface{}{"tick": i, "err": err.Error()})
+			close(stall)
+			w.Abandon()
+			return rep
+		}
+		// a freshly launched round first sleeps one send period (a distinct duration: the loop's own sleep carries a
+		// scripted jitter of 1 ms); end that sleep so that the round goes on to dial
+		for k := 0; k < 3; k++ {
+			time.Sleep(time.Millisecond)
+			vtime.FireMatch(func(pi vtime.PendingInfo) bool { return pi.D == cc.SendReportTime }, false, time.Second)
+		}
+	}
+	// rounds launched by the last ticks may not have reached their dial yet: give them (real) time, within reason
+	for deadline := time.Now().Add(15 * time.Second); dials < 2 && time.Now().Before(deadline); {
+		vtime.FireMatch(func(pi vtime.PendingInfo) bool { return pi.D == cc.SendReportTime }, false, time.Second)
+		time.Sleep(2 * time.Millisecond)
+	}
+	rep.Evals++
+	if len(hub.Log) <= sent {
+		rep.fail("no-report-while-a-round-is-stalled", map[string]interface{}{"datagrams": len(hub.Log) - sent})
+	}
+	hub.mu.Lock()
+	tcpDials := 0
+	for _, d := range hub.Dials {
+		if strings.HasPrefix(d, "tcp:") {
+			tcpDials++
+		}
+	}
+	hub.mu.Unlock()
+	_ = tcpDials
+	if dials < 2 {
+		rep.fail("no-later-sync-attempt-while-a-round-is-stalled", map[string]interface{}{"ticks": 13, "connections_seen_by_the_server": dials})
+	}
+	rep.Reasons[fmt.Sprintf("stalled server: %d connections in 13 ticks", dials)]++
+	close(stall) // the stuck rounds fail now and return
+	time.Sleep(5 * time.Millisecond)
+	if p := safely(func() { w.Close() }); p != "" {
+		rep.fail("close-panic", p)
+	}
+	w.Cleanup()
+	return rep
+}
+
 func c11Round(j c11Job) *jobReport {
 	rep := &jobReport{Reasons: map[string]int{}}
 	var servers []scriptedServer
@@ -540,6 +618,9 @@ func init() {
 		if j.Part == "shapes" {
 			return c11Shapes(j), nil
 		}
+		if j.Part == "stall" {
+			return c11Stall(), nil
+		}
 		return c11Round(j), nil
 	})
 	checks["C11"] = func(tier string) int {
@@ -598,6 +679,7 @@ func init() {
 				}
 			}
 		}
+		jobs = append(jobs, c11Job{Part: "stall"})
 		lockPaths(run, "client", "glow")
 		// five and six configured servers: every way for all five attempts to fail with one kind of failure,
 		// mixed failures, and success on exactly the fifth attempt
@@ -623,7 +705,7 @@ func init() {
 			}
 		}
 		run.Assumption("delays are not modelled (virtual time); a hung dial is represented by refusal/reset; the Go map iteration order inside the client is not controlled, the harness observes which server was contacted")
-		return runJobCheck(run, "c11", jobs, "(a) reply shapes: every length 0..800, 1000, 4096, 65535 as zeros, as the genuine reply cut with rewritten prefix, as a short read, and as bodies of 0x00/0xFF/own-key bytes correctly timestamped and signed with the contacted server's real key, plus every server-list region length 0..150 signed by the real key, plus every announced length 65100..65535 with the list region ending in a cut entry (two placements), all against the real parser; (b) every sequence of per-attempt outcomes {refused, reset, short read, bad signature, tiny reply, success} for 1..3 configured servers with none/one/all banned and several shuffle answers, through the real sync round, followed by a send-loop tick, a second round and a client restart; distinct = (shape class, verdict) and (round result, attempts) classes")
+		return runJobCheck(run, "c11", jobs, "(a) reply shapes: every length 0..800, 1000, 4096, 65535 as zeros, as the genuine reply cut with rewritten prefix, as a short read, and as bodies of 0x00/0xFF/own-key bytes correctly timestamped and signed with the contacted server's real key, plus every server-list region length 0..150 signed by the real key, plus every announced length 65100..65535 with the list region ending in a cut entry (two placements), all against the real parser; (b) every sequence of per-attempt outcomes {refused, reset, short read, bad signature, tiny reply, success} for 1..3 configured servers with none/one/all banned and several shuffle answers, through the real sync round, followed by a send-loop tick, a second round and a client restart; (c) a server that accepts the sync connection and stays silent while the real report loop runs 13 iterations: reports keep going out and another round is attempted; distinct = (shape class, verdict) and (round result, attempts) classes")
 	}
 }
 
